@@ -211,9 +211,14 @@ func (f *Frame) paramKinds() map[string]bool {
 				}
 				rf.parKinds["*"] = true
 			}
+		case *types.Signature:
+			rf.parKinds["*"] = true
 		}
 	}
 	for _, p := range rf.fn.Params {
+		if refs := p.Referrers(); refs != nil && len(*refs) == 0 {
+			continue // unused parameter
+		}
 		walk(p.Type())
 	}
 	return rf.parKinds
